@@ -190,6 +190,11 @@ func getFileNameForType(typePrefix string, headerType HeaderFooterType) string {
 	}
 }
 
+// validHeaderFooterType 报告类型是否为三种页眉页脚类型之一（default、first、even）
+func validHeaderFooterType(headerType HeaderFooterType) bool {
+	return headerType == HeaderFooterTypeDefault || headerType == HeaderFooterTypeFirst || headerType == HeaderFooterTypeEven
+}
+
 // headerFooterRelationshipID 返回指向给定页眉/页脚部件的文档关系ID。
 // 同一类型的页眉/页脚再次定义时会覆盖同一个部件（如 header1.xml），此时必须复用该部件已有的关系，
 // 否则每次调用都会在 document.xml.rels 中留下一个指向同一目标的多余关系；没有时才用新的ID追加一个关系。
@@ -211,6 +216,11 @@ func (d *Document) headerFooterRelationshipID(relType, fileName string) string {
 
 // AddHeader 添加页眉
 func (d *Document) AddHeader(headerType HeaderFooterType, text string) error {
+	// 其他类型没有对应的部件名（会覆盖默认类型的部件）且不是合法的 w:type 值
+	if !validHeaderFooterType(headerType) {
+		return fmt.Errorf("无效的页眉类型: %s", headerType)
+	}
+
 	header := createStandardHeader()
 
 	// 创建页眉段落
@@ -256,6 +266,11 @@ func (d *Document) AddHeader(headerType HeaderFooterType, text string) error {
 
 // AddFooter 添加页脚
 func (d *Document) AddFooter(footerType HeaderFooterType, text string) error {
+	// 其他类型没有对应的部件名（会覆盖默认类型的部件）且不是合法的 w:type 值
+	if !validHeaderFooterType(footerType) {
+		return fmt.Errorf("无效的页脚类型: %s", footerType)
+	}
+
 	footer := createStandardFooter()
 
 	// 创建页脚段落
@@ -301,6 +316,11 @@ func (d *Document) AddFooter(footerType HeaderFooterType, text string) error {
 
 // AddHeaderWithPageNumber 添加带页码的页眉
 func (d *Document) AddHeaderWithPageNumber(headerType HeaderFooterType, text string, showPageNum bool) error {
+	// 其他类型没有对应的部件名（会覆盖默认类型的部件）且不是合法的 w:type 值
+	if !validHeaderFooterType(headerType) {
+		return fmt.Errorf("无效的页眉类型: %s", headerType)
+	}
+
 	header := createStandardHeader()
 
 	// 创建页眉段落
@@ -372,6 +392,11 @@ func (d *Document) AddHeaderWithPageNumber(headerType HeaderFooterType, text str
 
 // AddFooterWithPageNumber 添加带页码的页脚
 func (d *Document) AddFooterWithPageNumber(footerType HeaderFooterType, text string, showPageNum bool) error {
+	// 其他类型没有对应的部件名（会覆盖默认类型的部件）且不是合法的 w:type 值
+	if !validHeaderFooterType(footerType) {
+		return fmt.Errorf("无效的页脚类型: %s", footerType)
+	}
+
 	footer := createStandardFooter()
 
 	// 创建页脚段落
@@ -555,6 +580,11 @@ func createFormattedParagraph(text string, format *TextFormat, alignment Alignme
 //		Alignment: document.AlignCenter,
 //	})
 func (d *Document) AddFormattedHeader(headerType HeaderFooterType, config *HeaderFooterConfig) error {
+	// 其他类型没有对应的部件名（会覆盖默认类型的部件）且不是合法的 w:type 值
+	if !validHeaderFooterType(headerType) {
+		return fmt.Errorf("无效的页眉类型: %s", headerType)
+	}
+
 	header := createStandardHeader()
 
 	// 创建格式化页眉段落
@@ -612,6 +642,11 @@ func (d *Document) AddFormattedHeader(headerType HeaderFooterType, config *Heade
 //		Alignment: document.AlignCenter,
 //	})
 func (d *Document) AddFormattedFooter(footerType HeaderFooterType, config *HeaderFooterConfig) error {
+	// 其他类型没有对应的部件名（会覆盖默认类型的部件）且不是合法的 w:type 值
+	if !validHeaderFooterType(footerType) {
+		return fmt.Errorf("无效的页脚类型: %s", footerType)
+	}
+
 	footer := createStandardFooter()
 
 	// 创建格式化页脚段落
